@@ -7,7 +7,6 @@ import sys
 import warnings
 from xml.etree import ElementTree
 
-sys.path.insert(0, "/repo")
 logging.disable(logging.CRITICAL)
 
 from mosromgr import mostypes  # noqa: E402
